@@ -336,6 +336,95 @@ def run(tier):
         cases.append(grouped_case(layout))
         ctx.case(("grouped", layout))
 
+    # ... and one whose members SHARE field names with different values (the grouped record shows the first member's)
+    def grouped_shared_case():
+        from flow.record import GroupedRecord
+
+        uniq[0] += 1
+        p = os.path.join(tmp, "o.avro")
+        if os.path.exists(p):
+            os.remove(p)
+        Da = RecordDescriptor("av/gs%d" % (uniq[0] % 7), [("varint", "n"), ("string", "f")])
+        Db = RecordDescriptor("av/gt%d" % (uniq[0] % 7), [("varint", "n"), ("string", "f"), ("string", "g")])
+        grp = GroupedRecord("av/grp2", [Da(99, "left", _generated=gen.GEN, _source="first"), Db(7, "right", "only-second", _generated=gen.GEN, _source="second")])
+        case = {"T": "string", "c": "fits", "probe": "grouped", "layout": "shared-names", "outcome": "?", "probe_in_file": False, "good_records_intact": True, "std_reader_opens": True,
+                "descriptor_carried": True, "exc": "none", "value": "GroupedRecord([n=99 f='left'], [n=7 f='right' g='only-second'])"}
+        w = AvroWriter(p)
+        refused = False
+        try:
+            w.write(grp)
+        except Exception as e:
+            refused, case["exc"] = True, type(e).__name__ + ":" + str(e)[:60]
+        try:
+            w.flush()
+            w.close()
+        except Exception as e:
+            refused, case["exc"] = True, "close: " + type(e).__name__ + ":" + str(e)[:60]
+        std = []
+        try:
+            if os.path.exists(p) and os.path.getsize(p):
+                with open(p, "rb") as fh:
+                    std = list(fastavro.reader(fh))
+        except Exception:
+            case["std_reader_opens"] = False
+        case["probe_in_file"] = bool(std)
+        if refused:
+            case["outcome"] = "refused"
+        else:
+            want = {"n": int(grp.n), "f": str(grp.f), "g": str(grp.g), "_source": grp._source}
+            case["outcome"] = "same" if len(std) == 1 and all(std[0].get(k) == v for k, v in want.items()) else "different"
+        return case
+
+    cases.append(grouped_shared_case())
+    ctx.case(("grouped", "shared-names"))
+
+    # a record type WITHOUT fields of its own (the reserved fields carry the data): several records, then a foreign one
+    def fieldless_case(n_records, then_foreign):
+        uniq[0] += 1
+        p = os.path.join(tmp, "o.avro")
+        if os.path.exists(p):
+            os.remove(p)
+        Z = RecordDescriptor("av/z%d" % (uniq[0] % 7), [])
+        Oo = RecordDescriptor("av/zo%d" % (uniq[0] % 7), [("varint", "n")])
+        case = {"T": "string", "c": "fits", "probe": "fieldless", "layout": f"{n_records} records" + (" + foreign" if then_foreign else ""), "outcome": "?", "probe_in_file": False,
+                "good_records_intact": True, "std_reader_opens": True, "descriptor_carried": True, "exc": "none", "value": "records of a type without own fields"}
+        w = AvroWriter(p)
+        foreign_refused = True
+        try:
+            for i in range(n_records):
+                w.write(Z(_generated=gen.GEN, _source="src%d" % i))
+            if then_foreign:
+                try:
+                    w.write(Oo(5, _generated=gen.GEN))
+                    foreign_refused = False
+                except Exception:
+                    pass
+            w.flush()
+            w.close()
+        except Exception as e:
+            case["exc"] = type(e).__name__ + ":" + str(e)[:60]
+            case["good_records_intact"] = False
+        std, lib = [], []
+        try:
+            with open(p, "rb") as fh:
+                std = list(fastavro.reader(fh))
+            rd = AvroReader(p)
+            lib = list(rd)
+            case["descriptor_carried"] = rd.desc.name == Z.name and tuple(rd.desc.get_field_tuples()) == ()
+            rd.close()
+        except Exception as e:
+            case["std_reader_opens"] = False
+            case["exc"] = "read: " + type(e).__name__ + ":" + str(e)[:60]
+        want = ["src%d" % i for i in range(n_records)]
+        case["good_records_intact"] &= [r.get("_source") for r in std] == want and [r._source for r in lib] == want
+        case["probe_in_file"] = len(std) > n_records
+        case["outcome"] = "same" if case["good_records_intact"] and foreign_refused else "different"
+        return case
+
+    for n_records, then_foreign in ((1, False), (3, False), (3, True)):
+        cases.append(fieldless_case(n_records, then_foreign))
+        ctx.case(("fieldless", n_records, then_foreign))
+
     # the container written to STANDARD OUTPUT by a process of its own (the interpreter's shutdown is part of the history):
     # exactly one container header, readable to its end by a standard reader, every record in it
     for mode in ("with", "close", "closeclose", "flushclose"):
